@@ -87,6 +87,43 @@ def real_ifdefs(text):
         return evaluate_ifdefs(text)          # a tree without keep_lines: compared as it is
 
 
+def parse_through_oracle(rng, n):
+    """Conditional compilation as the top-level parser applies it: parsing the text gives the operations, at the
+    same lines, that parsing the kept text alone gives — whether the directives start in column 1 or are indented,
+    all of them or some (seed C16e: parse() skipped conditional compilation unless a line began with #if)."""
+    from hera.data import Settings
+    from hera.parser import parse
+    problems = []
+
+    def ops_of(t):
+        st = Settings()
+        with captured():
+            try:
+                ops, msgs = parse(t, settings=st)
+            except BaseException as e:  # noqa
+                return ("raise", type(e).__name__)
+        return ([(type(o).__name__, [str(a) for a in o.args], o.loc.line if getattr(o, "loc", None) else None) for o in ops],
+                sorted(m for m, _ in msgs.errors))
+    for k in range(n):
+        tree = gen_cond_tree(rng)
+        lines, exp = render_cond(rng, tree)
+        if not any(l.lstrip().startswith("#") for l in lines):
+            continue
+        style = k % 3
+        if style == 0:          # every directive indented
+            lines = [("  " if i % 2 else "\t") + l.lstrip() if l.lstrip().startswith("#") else l for i, l in enumerate(lines)]
+        elif style == 1:        # every directive flush left
+            lines = [l.lstrip() if l.lstrip().startswith("#") else l for l in lines]
+        text, kept = "\n".join(lines) + "\n", "\n".join(exp) + "\n"
+        a, b = ops_of(text), ops_of(kept)
+        if a != b:
+            problems.append({"what": "parsing a text with conditional compilation gives %r; the kept lines alone give %r"
+                                     % (str(a)[:200], str(b)[:200]), "text": text})
+            if len(problems) >= 3:
+                break
+    return problems
+
+
 def ifdef_cases(rng, n):
     """[(text, expected lines or None)]: well-nested renderings with known expectation, and broken ones."""
     cases = []
@@ -425,6 +462,9 @@ FAULTS = [
     ("{}INTEGER(5)", "INTEGER", "name", "data", ["NOP()"]),
     ('{}LP_STRING("abc', '"abc', "operand", "unclosed", []),
     ("{}SET(R1, 'ab')", "'ab'", "operand", "character", []),
+    ("{}SETLO(R2, 'a)", "'a)", "operand", "unclosed", []),
+    ("{}SETLO(R2, ')", "')", "operand", "unclosed", []),
+    ('{}print("abc)', '"abc)', "operand", "unclosed", []),
     ("{}SET(R1, 017)", "017", "operand", "octal", []),
     ("{}INC(R1, 65)", "65", "operand", "range", []),
     ("{}BRR(toofar)", "toofar", "either", "far", []),
@@ -590,7 +630,13 @@ STRING_CHARS = [chr(c) for c in (0, 1, 7, 8, 9, 10, 11, 12, 13, 27, 31, 32, 33, 
 def gen_roundtrip_program(rng):
     import progcases as pc
     lines = pc.gen_valid(rng, n_code=rng.choice([3, 8, 15]))
-    lines = [l for l in lines if not l.startswith(("SWI", "RTI", "print", "__eval"))]
+    lines = [l for l in lines if not l.startswith(("SWI", "RTI"))]
+    # debugging operations stay (they are dropped by preprocess and assemble alike), and some are planted in front
+    # of label branches (seed C10e: in preprocess mode they were counted when relative label offsets were computed)
+    for i in range(len(lines) - 1, -1, -1):
+        if lines[i].split("(")[0].endswith("R") and rng.random() < 0.3:
+            lines.insert(rng.randrange(0, i + 1) if not any(l.split("(")[0] in ("DLABEL", "INTEGER", "LP_STRING", "TIGER_STRING", "DSKIP", "CONSTANT") for l in lines[:i + 1]) else i,
+                         rng.choice(['print_reg(R1)', 'print("x")', 'println("y")', '__eval("1")']))
     extra = []
     for _ in range(rng.choice([0, 1, 2])):
         s = "".join(rng.choice(STRING_CHARS) for _ in range(rng.choice([0, 1, 3, 6])))
